@@ -225,10 +225,15 @@ theorem handler_registered_before_push {s : State} (h : Reachable s) {r : Mon}
     · exact absurd h1 hph
     · rw [hsk] at h1; cases h1
 
-/-- **the cascade's finish notification fires exactly once** (over the split steps of `AddEvent`):
-    never twice; and for a root handed over with a triggering event, once no engine step is enabled
-    and every monitor is finished, the finish handler has run exactly once. For a skipped
-    (non-triggering) root event no handler observer is ever registered and it runs zero times. -/
+/-- **finish notification**: the finished message is posted at most once and the finish handler runs
+    at most once. For a root handed over with a TRIGGERING event: once no engine step is enabled and
+    every monitor is finished, the handler has run exactly once. For a root event that does NOT
+    trigger (`AddEvent` returns nil: the event is "skipped" / "discarded right away", engine.md) the
+    handler runs ZERO times — no observer is registered on that path (processor.go, behind
+    `IsTriggering`), although the monitor ends finished and the message is posted to nobody.
+    DECLARED READING (props/C02.py assumptions): a discarded event starts no cascade, so "the
+    cascade's finish notification fires exactly once" does not apply to it; read literally, the doc
+    comment of `SetFinishHandler` ("called once this monitor has finished") would ask for a call. -/
 theorem finish_notification_exactly_once {s : State} (h : Reachable s) :
     s.posted ≤ 1 ∧ s.handlerCalls ≤ 1 ∧
     (∀ r, s.mons[0]? = some r → r.phase ≠ .fresh →
@@ -731,8 +736,11 @@ theorem conc_view_reachable {C : Conc} (h : C.Reachable) {r : Nat} {v : State} (
     Reachable v :=
   conc_view_reachable_lem h hv
 
-/-- `errors_exact` + `wait_after_cascade` for a cascade running beside others on the shared pump:
-    its report holds exactly its own failed (event, rule) entries — nothing of another cascade -/
+/-- `errors_exact` + `wait_after_cascade` for a cascade running beside others on the shared pump.
+    NOTE: that the report holds nothing of ANOTHER cascade is by construction here (the error map is
+    root-local in the model as `RootMonitor.errors` is in Go); what could leak in Go — a task run
+    with another root's monitor, colliding monitor ids — is covered by the fact
+    `src_monitor_id_alloc_in_critical_section` and TESTED by the harness field `foreign=`. -/
 theorem conc_errors_exact {C : Conc} (h : C.Reachable) {r : Nat} {v : State} (hv : C.view r = some v)
     (hw : 0 < v.released) :
     allErrors v = expectedReport v ∧ ∀ m ∈ v.mons, m.phase.finished = true ∧ m.todo = [] := by
